@@ -13,7 +13,7 @@ structure O1C (sends : Nat → Send) (nextSend : Nat) (callers : Nat → Caller)
 
 def O1 (s : St) : Prop := O1C s.sends s.nextSend s.callers
 
-theorem O1_init : O1 init := by constructor <;> simp [init]
+theorem O1_init (f p : Nat → Nat) : O1 (initSz f p) := by constructor <;> simp [initSz]
 
 set_option maxHeartbeats 1000000 in
 theorem O1_step (s s' : St) (a : Act) (hC : CInv s) (h : O1 s) (hs : step s a = some s') : O1 s' := by
@@ -92,7 +92,7 @@ def O3 (s : St) : Prop := ∀ c, (s.callers c).sent = true →
   ∃ x, x < s.nextSend ∧ (s.sends x).kind = .call ∧ (s.sends x).who = c ∧
     (s.sends x).seq = (s.callers c).seq ∧ wHas s x
 
-theorem O3_init : O3 init := by intro c; simp [init]
+theorem O3_init (f p : Nat → Nat) : O3 (initSz f p) := by intro c; simp [initSz]
 
 theorem O3_transfer (s s' : St) (hle : s.nextSend ≤ s'.nextSend)
     (hfr : ∀ x, x < s.nextSend → Send.static (s'.sends x) (s.sends x))
@@ -202,7 +202,7 @@ def O4 (s : St) : Prop := ∀ (j y : Nat), s.wlog[j]? = some y → (s.sends y).k
   ∃ x i, (s.sends x).kind = .call ∧ (s.sends x).who = (s.sends y).who ∧
     (s.sends x).seq = (s.sends y).seq ∧ s.wlog[i]? = some x ∧ i < j
 
-theorem O4_init : O4 init := by intro j y; simp [init]
+theorem O4_init (f p : Nat → Nat) : O4 (initSz f p) := by intro j y; simp [initSz]
 
 theorem O4_transfer (s s' : St)
     (hfr : ∀ x, x < s.nextSend → Send.static (s'.sends x) (s.sends x))
@@ -316,7 +316,7 @@ structure OAll (s : St) : Prop where
   o4 : O4 s
 
 theorem OAll_reach (s : St) (hr : Reachable s) : OAll s := by
-  refine reachable_induct (P := OAll) ⟨CInv_init, SInv_init, WInv_init, O1_init, O3_init, O4_init⟩ ?_ s hr
+  refine reachable_induct (P := OAll) (fun f p => ⟨CInv_init f p, SInv_init f p, WInv_init f p, O1_init f p, O3_init f p, O4_init f p⟩) ?_ s hr
   intro s s' a _ ih hs
   exact ⟨CInv_step s s' a ih.ci hs, SInv_step s s' a ih.si hs, WInv_step s s' a ih.si ih.wi hs,
     O1_step s s' a ih.ci ih.o1 hs, O3_step s s' a ih.ci ih.si ih.o3 hs,
